@@ -22,8 +22,17 @@ pub enum Fault {
     PanicAt(u64),
 }
 
+pub struct Callback(pub Box<dyn Fn()>);
+impl std::fmt::Debug for Callback {
+    fn fmt(&self, f: &mut std::fmt::Formatter<'_>) -> std::fmt::Result {
+        f.write_str("Callback")
+    }
+}
+
 #[derive(Debug)]
 pub struct Inner {
+    /// called (once) at the beginning of the k-th call
+    pub on_call: Option<(u64, Callback)>,
     pub data: Vec<u8>,
     pub pos: u64,
     pub log: Vec<DestOp>,
@@ -43,6 +52,7 @@ pub struct Dest(pub Rc<RefCell<Inner>>);
 impl Dest {
     pub fn new(prefill: Vec<u8>, pos: u64) -> Self {
         Dest(Rc::new(RefCell::new(Inner {
+            on_call: None,
             data: prefill,
             pos,
             log: vec![],
@@ -53,6 +63,9 @@ impl Dest {
             first_problem: None,
             writes: 0,
         })))
+    }
+    pub fn on_call(&mut self, k: u64, f: Box<dyn Fn()>) {
+        self.0.borrow_mut().on_call = Some((k, Callback(f)));
     }
     pub fn with_fault(self, f: Fault) -> Self {
         self.0.borrow_mut().fault = f;
@@ -81,6 +94,10 @@ impl Inner {
     fn tick(&mut self) -> std::io::Result<()> {
         let k = self.calls;
         self.calls += 1;
+        if matches!(&self.on_call, Some((n, _)) if *n == k) {
+            let (_, cb) = self.on_call.take().unwrap();
+            (cb.0)();
+        }
         match self.fault {
             Fault::ErrAt(n) if n == k => Err(Error::new(ErrorKind::Other, "injected destination failure")),
             Fault::PanicAt(n) if n == k => panic!("injected destination panic"),
